@@ -28,3 +28,19 @@ prop("C18",
      design_ref="DESIGN.md section 4-U3, 5-C18",
      text="Complete for the inline representation (N in {1,2}, all lengths, all element values); bounded in heap-side length; histories unbounded by induction over arbitrary pre-states.",
      note="Trusted: Kani/CBMC, std Vec and slice::sort, Kani's allocator model. Heap-side length bounded (quick 3, thorough 6).")
+
+prop("C09",
+     units=[("kani", "u2_tape", None)],
+     level="model_checking",
+     technique="Kani per-operation contract harnesses on the real Memory over an abstract view (total map), from arbitrary well-formed pre-states: one-step induction over call histories",
+     design_ref="DESIGN.md section 4-U2, 5-C09",
+     text="Every Memory operation is verified against its effect on the abstract view at a fresh symbolic index (frame included) from ANY well-formed state within the size bound; histories are unbounded by induction. Loop-free operations (read, check, mov) are complete over offsets in +-2^62.",
+     note="Bounded: buffer size, pointer slack and offsets of allocating calls (quick: 4 cells / 6 / 5; thorough: 8 / 12 / 10). Pointer API only for in-block pointers (Kani pointer model). Trusted: Kani's allocator model.")
+
+prop("C17",
+     units=[("kani", "u2_tape", None), ("kani", "u2b_bccontext", None)],
+     level="model_checking",
+     technique="Kani contract harnesses with std::alloc::alloc_zeroed replaced by a contract-level may-fail allocator (symbolic failure) on the real growth path",
+     design_ref="DESIGN.md section 4-U2, 5-C17",
+     text="From any well-formed tape state, whichever growth request fails and in whichever direction: the call either does not return (abort) or returns with an intact tape, and Kani's pointer checks show no access through a null or freed block.",
+     note="Bounded in buffer size like C09. Trusted: the allocator contract (block of the requested layout or null), handle_alloc_error modelled as non-returning.")
